@@ -167,6 +167,24 @@ CHECKS = {
         design="§5 C09", technique="Lean 4 proof (window/paste index arithmetic by omega, tape-threading loop "
                                    "characterised entry by entry, reuse of the C10 mask theorems) + per-call "
                                    "differential correspondence with the five real observers under a scripted oracle"),
+    "C17": dict(
+        text="Lean 4 theorems C17_done_components / C17_done_iff / C17_allDone_iff / C17_done_error_iff (+ one c17_* per "
+             "component and getter): for every world, every target mapping that is a dict and every agent, the five "
+             "built-in done components (modelled branch for branch, KeyError of an agent without a target included) "
+             "answer True exactly under the documented first-order condition (inactive; same stored position as its "
+             "target; target inactive; every agent of every target encoding inactive with any/all over the teams; all "
+             "active agents of one encoding) and raise exactly for an agent without an entry. smart_done_any / "
+             "smart_allDone_any (lazy any, error branch, order irrelevance without errors), smart_obs_merge (+ distinct "
+             "keys => order irrelevant), smart_reset_all, smart_reward_once (read + pending = start + accrued over every "
+             "interleaving), C17_smart: the trace of every history of every smart simulation over abstract observers / "
+             "state components satisfies the judge specSmart. Tie: per-call refinement of the real components over "
+             "generated populations (every getter for every agent) and of a real minimal SmartGridWorldSimulation "
+             "subclass with every subset of the built-in done components by class / registry name, logging stub "
+             "observers and state components, set iteration orders read at run time; registry name->class table "
+             "compared directly.",
+        design="§5 C17", technique="Lean 4 proof (first-order readings of Bool judges, lazy-any and dict-merge "
+                                   "characterisations, ledger invariant by induction over histories) + per-call "
+                                   "differential correspondence with the real done components and SmartGridWorldSimulation"),
 }
 
 PENDING = {
